@@ -24,7 +24,7 @@ class C04Spec(explore.Spec):
     def alphabet(self, cfg):
         v = cfg["version"]
         evs = []
-        for ev in alpha.events(v, NAMES) + [alpha.rx(alpha.invalid_for(v)), ("set", 1, 0, 2, "0"), alpha.rx("1;255;0;0;6;abc"), alpha.rx("1;255;3;0;0;100"), ("fw", 1, 1, 1, "F1"), alpha.rx(f"253;255;0;0;17;{v}")]:
+        for ev in alpha.events(v, NAMES) + [alpha.rx(alpha.invalid_for(v)), ("set", 1, 0, 2, "0"), alpha.rx("1;255;0;0;6;abc"), alpha.rx("1;255;3;0;0;100"), ("fw", 1, 1, 1, "F1"), alpha.rx(f"253;255;0;0;17;{v}"), alpha.rx(f"0;255;0;0;18;{v}"), alpha.rx(alpha.lines(v)["FCA"]), alpha.rx(alpha.lines(v)["FRA0"])]:
             if ev not in evs:
                 evs.append(ev)
         return evs
